@@ -20,7 +20,7 @@ void h_sjp_parse(void) {
     __CPROVER_assume(inputlen <= MAXLEN);
     INPUT_BUF(inw, input, inputlen, 32);
     verif_ctx_init(&ctx);
-    g_mc_idx = k; g_cb_n = 0; g_cb_expect = &input[2];
+    g_mc_idx = k; g_cb_n = 0; g_cb_k = k;
     /* one call site per NULL pattern: keeps every pointer a constant for the verifier (a conditional
      * pointer as memcpy destination costs 7x) */
     if (use_proof && use_input) ret = secp256k1_surjectionproof_parse(&ctx, &proof, input, inputlen);
@@ -44,7 +44,7 @@ void h_sjp_parse(void) {
                 /* m = number of set bits of the ceil(n/8)-byte bitmap: the value of count_bits_set(bitmap, ceil(n/8)),
                  * which unit C11.count_bits proves to be the population count */
                 if (pad_ok) {
-                    __CPROVER_assert(g_cb_n == 1 && g_cb_match && g_cb_count == s_nb, "C11 parse: the bit count is taken over exactly the ceil(n/8) bitmap bytes");
+                    __CPROVER_assert(g_cb_n >= 1 && g_cb_count == s_nb && (k >= s_nb || g_cb_byte == input[2 + k]), "C11 parse: the bit count is taken over exactly the ceil(n/8) bitmap bytes of this input");
                     s_pop = g_cb_ret;
                 }
                 s_ok = pad_ok && inputlen == 2 + s_nb + 32 * (1 + s_pop);
